@@ -114,7 +114,7 @@ def collect(which, only):
                 continue
             jobs.append(("patch", "seed:" + os.path.basename(d), os.path.join(d, "patch.diff"), meta["property"]))
     if "refactors" in which:
-        for d in sorted(glob.glob(os.path.join(VERIF, "refactors", "C*", "r*.diff"))):
+        for d in sorted(glob.glob(os.path.join(VERIF, "refactors", "C*", "*.diff"))):
             meta_p = os.path.join(os.path.dirname(d), "meta.json")
             skip = {}
             if os.path.exists(meta_p):
